@@ -343,6 +343,48 @@ func init() {
 				}
 			}
 		}
+		// a forged copy of a vertex the node has ALREADY SEEN and verified but not yet stored (it is parked: its
+		// parent was missing): the genuine child is parked, the parent arrives, then a copy of the child with
+		// altered signed fields arrives before the retry. Having verified the genuine one earlier says nothing
+		// about the copy.
+		for round := 0; round < 3; round++ {
+			b := w.NewNode()
+			w.syncFrom(a, b)
+			gen := a.ab.VerifSnapshot().Vertices[0]
+			pt, _ := transaction.New("parent", spice.Melange{Currency: 2}, nil, rec.Address(), recSigner{iss})
+			parent, _ := accountant.NewVertex(pt, gen.Hash, gen.Hash, 51, recSigner{sealer})
+			ct, _ := transaction.New("child", spice.Melange{Currency: 1}, []byte("x"), rec.Address(), recSigner{iss})
+			child, _ := accountant.NewVertex(ct, parent.Hash, parent.Hash, 52, recSigner{sealer})
+			cp := child
+			b.ab.AddLeaf(w.ctx, &cp) // parked
+			cp2 := parent
+			b.ab.AddLeaf(w.ctx, &cp2)
+			forged := child
+			switch round {
+			case 0:
+				forged.Transaction.Spice.Currency = 1000000
+				forged.Transaction.ReceiverAddress = stranger.Address()
+			case 1:
+				forged.Weight += 5
+			case 2:
+				forged.Transaction.Data = []byte("y")
+			}
+			fc := forged
+			aerr := b.ab.AddLeaf(w.ctx, &fc)
+			for i := 0; i < 3; i++ {
+				b.ab.VerifRetryParked(w.ctx)
+			}
+			c.Rep.Evals++
+			c.Distinct(fmt.Sprintf("forged-copy-of-parked/%d", round))
+			sn := b.ab.VerifSnapshot()
+			for _, x := range sn.Vertices {
+				if x.Hash == child.Hash && tvFields(&x) != tvFields(&child) {
+					info := map[string]interface{}{"section": "tamper", "scenario": "forged-copy-of-parked-vertex", "round": round}
+					c.Violate("C04", "forged-copy-of-parked-vertex-admitted", fmt.Sprintf("the genuine vertex was parked (verified), its parent arrived, then a copy with altered signed fields was offered (AddLeaf: %v): the ledger holds the altered copy", aerr), info)
+				}
+			}
+			b.cancel()
+		}
 		// sha256 / base58 cross checks for the model's executable crypto
 		for i := 0; i < 40; i++ {
 			n := []int{0, 1, 55, 56, 63, 64, 65, 119, 120, 200, 1000}[i%11]
